@@ -4,6 +4,7 @@ import (
 	"context"
 	"fmt"
 	"sort"
+	"strings"
 	"sync"
 	"sync/atomic"
 	"time"
@@ -39,10 +40,26 @@ type C09GateDriver interface {
 // after a request of B has been answered; (3) once the LIST is answered the rollout
 // completes: every child at v2, one revision left.
 func PropC09RestartBeforeRevisionCache(c *vs.Case, drv C09GateDriver) error {
+	return propRestartWithSlowList(c, drv, "controllerrevisions")
+}
+
+// PropC03RestartBeforeChildCache: the same history with the LIST of the child resource held back instead.
+// Oracle (C03): every sync-hook call the restarted instance makes shows all n children, which exist throughout -
+// a sync that runs before the child cache is filled would show none of them. In the thorough tier the LIST is
+// also held for 11 s, longer than any grace period one might be tempted to give a slow informer.
+func PropC03RestartBeforeChildCache(c *vs.Case, drv C09GateDriver) error {
+	return propRestartWithSlowList(c, drv, "widgets")
+}
+
+func propRestartWithSlowList(c *vs.Case, drv C09GateDriver, heldRes string) error {
 	env := NewC20Env()
 	n := 2 + c.Int(3)
 	method := v1alpha1.ChildUpdateMethod(c.PickStr("RollingInPlace", "RollingRecreate", "RollingInPlace"))
-	holdMs := []int{120, 250, 400}[c.Int(3)]
+	holds := []int{120, 250, 400}
+	if heldRes == "widgets" && vs.Tier() == "thorough" {
+		holds = append(holds, 11000)
+	}
+	holdMs := holds[c.Int(len(holds))]
 	editWhileDown := c.Weighted(3, 1) == 0 // otherwise the edit lands while A still runs (A is stopped right after)
 	var log []string
 	c.Describe(func() any {
@@ -52,7 +69,7 @@ func PropC09RestartBeforeRevisionCache(c *vs.Case, drv C09GateDriver) error {
 				reqs = append(reqs, fmt.Sprintf("%s %s %s/%s %s -> %d", r.Verb, r.Def.Resource, r.Namespace, r.Name, r.Subresource, r.Code))
 			}
 		}
-		return map[string]any{"children": n, "method": method, "revisionListHeldMs": holdMs, "editWhileDown": editWhileDown, "steps": log, "mutatingRequests": reqs}
+		return map[string]any{"children": n, "method": method, "heldList": heldRes, "listHeldMs": holdMs, "editWhileDown": editWhileDown, "steps": log, "mutatingRequests": reqs}
 	})
 	ctx := context.Background()
 	url := "http://hook.invalid/gate/v1/sync"
@@ -66,10 +83,25 @@ func PropC09RestartBeforeRevisionCache(c *vs.Case, drv C09GateDriver) error {
 	if err := env.K8s.Create(ctx, cc); err != nil {
 		return fmt.Errorf("harness: %v", err)
 	}
+	var shownMu sync.Mutex
+	bRunning := false
+	var shown []int // number of widgets each sync-hook call of instance B was shown
 	env.Router.mu.Lock()
 	env.Router.Answer = func(u string, body map[string]any) map[string]any {
 		parent, _ := body["parent"].(map[string]any)
 		v, _ := getPath(parent, "spec.template.v")
+		shownMu.Lock()
+		if bRunning {
+			k := 0
+			chs, _ := body["children"].(map[string]any)
+			for gk, m := range chs {
+				if mm, ok := m.(map[string]any); ok && strings.HasPrefix(gk, "Widget.") {
+					k += len(mm)
+				}
+			}
+			shown = append(shown, k)
+		}
+		shownMu.Unlock()
 		var children []any
 		for i := 0; i < n; i++ {
 			children = append(children, map[string]any{"apiVersion": "ex.io/v1", "kind": "Widget",
@@ -104,7 +136,7 @@ func PropC09RestartBeforeRevisionCache(c *vs.Case, drv C09GateDriver) error {
 		if g == nil {
 			return nil
 		}
-		if r.Verb == "list" && r.Def.Resource == "controllerrevisions" {
+		if r.Verb == "list" && r.Def.Resource == heldRes {
 			atomic.AddInt32(&listsHeld, 1)
 			<-g
 			return nil
@@ -207,6 +239,9 @@ func PropC09RestartBeforeRevisionCache(c *vs.Case, drv C09GateDriver) error {
 	gateMu.Lock()
 	gate = g
 	gateMu.Unlock()
+	shownMu.Lock()
+	bRunning = true
+	shownMu.Unlock()
 	stopB := make(chan struct{})
 	fb := mcinformers.NewSharedInformerFactory(env.W.McClient, 0)
 	lb, ib := fb.Metacontroller().V1alpha1().ControllerRevisions().Lister(), fb.Metacontroller().V1alpha1().ControllerRevisions().Informer()
@@ -250,10 +285,38 @@ func PropC09RestartBeforeRevisionCache(c *vs.Case, drv C09GateDriver) error {
 	acted := append([]string(nil), early...)
 	gateMu.Unlock()
 	if held == 0 {
-		return fmt.Errorf("harness: instance B never listed ControllerRevisions")
+		return fmt.Errorf("harness: instance B never listed %s", heldRes)
 	}
 	c.NonTrivial()
-	c.Class("held-%dms", holdMs)
+	c.Class("held-%s-%dms", heldRes, holdMs)
+	if heldRes == "widgets" {
+		// RollingRecreate deletes a child before it re-creates it: one child may be legitimately absent then
+		min := n
+		if method == "RollingRecreate" {
+			min = n - 1
+		}
+		check := func() error {
+			shownMu.Lock()
+			defer shownMu.Unlock()
+			for i, k := range shown {
+				if k < min {
+					return vs.Violf("C03/hook-shown-incomplete-children", "restarted with %d owned children in the store; sync-hook call #%d of the restarted controller was shown %d of them (the LIST of the child resource was held back for %d ms)", n, i+1, k, holdMs)
+				}
+			}
+			return nil
+		}
+		if err := check(); err != nil {
+			return err
+		}
+		done := pollFor(15*time.Second, func() bool { return allAt("v2") && len(env.W.Sim.ListAll("controllerrevisions")) == 1 })
+		if err := check(); err != nil {
+			return err
+		}
+		if !done {
+			return vs.Violf("C08/rollout-not-resumed-after-restart", "15 s after the child LIST was answered the rollout has not completed: widgets %v", widgetsAt())
+		}
+		return nil
+	}
 	if len(acted) > 0 {
 		return vs.Violf("C09/acted-before-revision-cache-synced", "restarted with %d children at %v and the parent at v2; while the ControllerRevision LIST was still outstanding (%d ms) the controller already sent %d mutating requests: %v", n, before, holdMs, len(acted), acted)
 	}
